@@ -104,6 +104,7 @@ ITEMS = {
     # pack formats without a byte-order character use the host's native sizes (l / L are 8 bytes on LP64)
     'packL_native': ['pack L 7'], 'packl_native': ['pack l -7'], 'packI_native': ['pack I 7'], 'packq_eq': ['pack =q 1'],
     'li_clui': ['li x10 0x5004'], 'li_clui_neg': ['li x9 -4103'], 'lui_hi_lit': ['lui x11 %hi(0x5004)', 'addi x11 x11 %lo(0x5004)'],
+    'pack_pad': ['pack <2xH 0x1234'], 'pack_pad_lead': ['pack <xB 1', 'dh 2'], 'pack_pad_trail': ['pack <H2x 5'], 'pack_net': ['pack !H 0x1234'], 'pack_eqI': ['pack =I 7'],
     'auipc_ret': ['auipc x10 0', 'ret'], 'auipc_jalr': ['auipc x6 16', 'jalr x0 x6 0'], 'auipc_jr': ['auipc x5 0', 'jr x5'],
 }
 
@@ -112,7 +113,7 @@ def data_align():
     """every data item kind followed by aligns of several sizes (the align sees the position the sizes add up to)"""
     out = []
     data = ['dh', 'db2', 'dw', 'dd', 'bytes', 'shorts', 'ints', 'longs', 'longlongs', 'string', 'string_u', 'packh', 'packQ',
-            'packL_native', 'packl_native', 'packq_eq', 'longs_neg', 'longlongs_neg']
+            'packL_native', 'packl_native', 'packq_eq', 'longs_neg', 'longlongs_neg', 'pack_pad', 'pack_pad_lead', 'pack_pad_trail', 'pack_net', 'pack_eqI']
     for name in data:
         item = ITEMS[name]
         out.append(('dal_' + name, item + ['align 8', 'L1:', 'dw L1'] + item + ['db 1', 'align 3', 'L2:', 'dw L2', 'align 16', 'L3:', 'dd L3']))
@@ -149,6 +150,12 @@ CURATED += [
     # a far call (auipc+jalr: a %hi/%lo pair), then labels that sit directly in front of shrinking li's, and pairs naming them
     ('hilo_far_call_label_li', ['call L9', 'L1:', 'li x10 5', 'lui x5 %hi(L1)', 'addi x5 x5 %lo(L1)', 'ret', G(0), 'L9:', 'li x11 7', 'lui x6 %hi(L9)', 'lw x6 x6 %lo(L9)', 'ret']),
     ('hilo_far_tail_label_li', ['tail L9', 'L1:', 'li x10 K0', 'lui x5 %hi(L1)', 'addi x5 x5 %lo(L1)', G(0), 'L9:', 'li x11 7', 'call L1', 'dw L9']),
+    # an align as the very last item (only labels / constants behind it): its padding is part of the image
+    ('align_last', [FC, 'db 1', 'align 4']),
+    ('align_last_label', [F4, 'dh 1', 'L1:', 'align 256', 'L2:', 'K9 = 3']),
+    ('align_last_after_jump', ['L1:', FC, 'j L1', 'align 8']),
+    # labels spelled like registers: every kind of reference still means the label
+    ('labels_named_like_registers', ['a2:', F4, 'j a2', 'dw a2', 'dw %offset(a2)', 's2:', 'li x6 s2', 'dw %position(s2, BASE)', 'lui x5 %hi(s2)', 'addi x5 x5 %lo(s2)', 'beq x8 x0 s2']),
     ('far_call_then_bwd_br', ['call L9', 'L1:', G(0), 'bnez x8 L1', 'j L1', G(1), 'L9:', F4]),
     ('far_tail_then_bwd_j', ['mv x8 x9', 'tail L9', 'L1:', FC, G(0), 'j L1', 'beq x9 x0 L1', G(1), 'L9:', F4]),
     ('labelref_then_regonly', ['L0:', 'bne x8 x9 L0', 'sub x8 x8 x9', 'lui x5 %hi(L0)', 'and x8 x8 x9', 'lw x12 x0 %lo(L0)', 'slli x9 x9 2', 'dw L0', 'add x8 x8 x9', 'j L0', 'ebreak']),
